@@ -301,6 +301,33 @@ class VectorParameter:
         return f"VectorParameter('{self.name}', {self.size})"
 
 
+class _MatrixParameterEntry(Parameter):
+    """Read-only view of one entry of a MatrixParameter (value looked up at call time)."""
+
+    __slots__ = ("_matrix", "_row", "_col")
+
+    def __init__(self, matrix: "MatrixParameter", row: int, col: int) -> None:
+        self.name = f"{matrix.name}[{row},{col}]"
+        self._matrix = matrix
+        self._row = row
+        self._col = col
+
+    @property
+    def value(self) -> float:  # type: ignore[override]
+        return float(self._matrix._values[self._row, self._col])
+
+    def set(self, value: float | int | ArrayLike) -> None:
+        raise ParameterError(
+            parameter_name=self.name,
+            message="entries are updated through MatrixParameter.set",
+        )
+
+    def evaluate(
+        self, values: Mapping[str, ArrayLike | float]
+    ) -> NDArray[np.floating] | float:
+        return self.value
+
+
 class MatrixParameter:
     """A matrix of parameters for array-valued constants.
 
@@ -505,6 +532,32 @@ class MatrixParameter:
         Example:
             >>> result = A @ x_values  # Matrix-vector product
         """
+        from optyx.core.vectors import VectorExpression, VectorVariable
+
+        if isinstance(other, (VectorVariable, VectorExpression)):
+            # Symbolic product: the entries are read at evaluation time, so that
+            # x.dot(Sigma @ x) follows later Sigma.set(...) calls.
+            elements = (
+                other._variables
+                if isinstance(other, VectorVariable)
+                else other._expressions
+            )
+            if len(elements) != self.cols:
+                from optyx.core.errors import DimensionMismatchError
+
+                raise DimensionMismatchError(
+                    operation="MatrixParameter @ vector",
+                    left_shape=self._shape,
+                    right_shape=len(elements),
+                )
+            rows: list[Expression] = []
+            for i in range(self.rows):
+                row: Expression = _MatrixParameterEntry(self, i, 0) * elements[0]
+                for j in range(1, self.cols):
+                    row = row + _MatrixParameterEntry(self, i, j) * elements[j]
+                rows.append(row)
+            return VectorExpression(rows)  # type: ignore[return-value]
+
         other_arr = np.asarray(other)
         return self._values @ other_arr
 
